@@ -436,7 +436,7 @@ func TestC18InferAndEquivalences(t *testing.T) {
 	rapid.Check(t, func(rt *rapid.T) {
 		rev := rapid.SampledFrom(blockRevs).Draw(rt, "rev")
 		rows := rapid.IntRange(1, 5).Draw(rt, "rows")
-		class := rapid.SampledFrom([]string{"enum-adopts-definition", "array-of-enum", "map-of-enum", "datetime-adopts-zone", "datetime64-adopts-precision",
+		class := rapid.SampledFrom([]string{"enum-adopts-definition", "array-of-enum", "map-of-enum", "map-of-two-inferables", "datetime-adopts-zone", "datetime64-adopts-precision",
 			"array-datetime64", "enum-vs-int", "decimal-alias", "nullable-datetime64"}).Draw(rt, "class")
 		le := func(w int, v int64) []byte {
 			b := make([]byte, w)
@@ -518,6 +518,42 @@ func TestC18InferAndEquivalences(t *testing.T) {
 					if got := m.RowKV(i); len(got) != 1 || got[0].Key != "k" || got[0].Value != names[r] {
 						rt.Fatalf("[%s] row %d = %v", class, i, got)
 					}
+				}
+			}
+		case "map-of-two-inferables":
+			// A map whose key and value columns both take parameters from the server's type.
+			p := rapid.IntRange(0, 9).Draw(rt, "server-precision")
+			keyDef := "Enum8('k one' = 1, 'k2' = 2)"
+			vt := fmt.Sprintf("DateTime64(%d, 'UTC')", p)
+			keys := new(proto.ColEnum)
+			valsCol := new(proto.ColDateTime64).WithPrecision(proto.Precision(rapid.IntRange(0, 9).Draw(rt, "target-precision")))
+			m := proto.NewMap[string, time.Time](keys, valsCol)
+			mt := ref.Map(ref.Fixed(keyDef, 1), ref.Fixed(vt, 8))
+			tps := int64(1)
+			for i := 0; i < p; i++ {
+				tps *= 10
+			}
+			var vals []ref.Val
+			var raws []int64
+			for i := 0; i < rows; i++ {
+				r := rapid.Int64Range(-4_000_000_000, 4_000_000_000).Draw(rt, "ticks")
+				raws = append(raws, r)
+				vals = append(vals, []ref.KV{{K: le(1, int64(1+i%2)), V: le(8, r)}})
+			}
+			decode([]ref.Column{{Name: "m", T: mt, Rows: vals}}, proto.Results{{Name: "m", Data: m}})
+			if m.Type().Conflicts(proto.ColumnType(mt.Name)) || !strings.Contains(string(m.Type()), fmt.Sprintf("DateTime64(%d", p)) || !strings.Contains(string(m.Type()), "'k one' = 1") {
+				rt.Fatalf("[%s] target reports %q after decoding %q: key and value parameters must both be the server's", class, m.Type(), mt.Name)
+			}
+			for i, r := range raws {
+				kv := m.RowKV(i)
+				wantKey := []string{"k one", "k2"}[i%2]
+				sec, frac := r/tps, r%tps
+				if frac < 0 {
+					sec, frac = sec-1, frac+tps
+				}
+				want := time.Unix(sec, frac*(1_000_000_000/tps))
+				if len(kv) != 1 || kv[0].Key != wantKey || !kv[0].Value.Equal(want) {
+					rt.Fatalf("[%s] row %d = %v, want %q -> %v (server precision %d)", class, i, kv, wantKey, want.UTC(), p)
 				}
 			}
 		case "datetime-adopts-zone":
